@@ -45,6 +45,9 @@ let handle mode op args =
       out_bytes (dump_parse_schema d (str_of_hex wp = "1") (n_of_int (int_of_string (str_of_hex lim)))
                    (str_of_hex bi = "1") (bytes_of_hex a))
   | "json", [a] -> out_bytes (dump_json_roundtrip d (bytes_of_hex a))
+  | "fq", [fl; ind; a] -> out_bytes (dump_format_query d (mk_fopts (bytes_of_hex fl) (bytes_of_hex ind)) (bytes_of_hex a))
+  | "fs", [fl; ind; bi; a] ->
+      out_bytes (dump_format_schema d (mk_fopts (bytes_of_hex fl) (bytes_of_hex ind)) (str_of_hex bi = "1") (bytes_of_hex a))
   | _ -> "BADOP"
 
 let () =
